@@ -31,13 +31,14 @@ SIG_SMOOTH = 'c17-smoothed-ci-leaves-range'
 
 UNPROVED = [
     'mode: the Gaussian-KDE arg-max index is an oracle (scipy.stats.gaussian_kde); the column is compared with the sorted value at scipy\'s arg-max',
-    'p_ttest: the Student-t tail is an oracle; the model computes t^2 exactly and the column is compared with 2*t.sf(sqrt(t^2), n-1) from scipy',
-    'bintest: Phi (normal cdf) is an oracle; raw p-values are compared with erfc(|z|/sqrt 2); everything after them (BH, hits) is exact',
-    'square roots (stdev, bivar, sem, sqrt(1 - weight)) are outside the model: squared quantities are modelled, proved and compared',
-    'bootstrap indices / smoothing noise after seed(0xA5EED) are oracles: theorems hold for ANY index matrix with entries in [0,k); that the code draws them from the generated seed is checked by reproducing the draws',
+    'p_ttest: the Student-t tail is an oracle with the contract "a function of (t^2, df), 1 at t = 0" (C17_ttest_*); the model computes t^2 exactly and the column is compared with 2*t.sf(sqrt(t^2), n-1) from scipy',
+    'bintest: Phi (normal cdf) is an oracle; raw p-values are compared with erfc(|z|/sqrt 2); everything after them (BH, hits, the returned table) is exact',
+    'square roots (stdev, bivar, sem, sqrt(1 - weight) of the z-score) are outside the model: squared quantities are modelled, proved and compared; in the smoothed bootstrap sqrt(1 - w) and the bandwidth k^(-1/4) are oracles supplied as the floats numpy returns (contract used: sqrt 0 = 0)',
+    'random draws: the index matrix and the normal draws are oracles indexed by the SEED (any generator; contract: the shape asked for, indices in [0,k)); that the code seeds with the generated constant, asks for (bootstraps, k) and draws one randn(k) per resample is observed on every direct call (numpy\'s generator wrapped inside the harness process) and by reproducing the draws',
     'the biweight location inside bivar is the iterative estimate of Model/Descriptives.v (C19); C17_defs states the midvariance formula about that location',
-    'order of the tested bins relative to the bin table: proved when the residuals cover every bin exactly once (C17_hits_order); otherwise the model takes the order of the residuals (segment order) and the harness compares the code\'s hit order with table order on every sorted segmentation',
-    'the number of resamples (bootstraps raised to ceil(2/alpha)) is checked by the model entry against the supplied index matrix; no theorem speaks about it',
+    'the guard `bootstraps <= 2/alpha` compares with the FLOAT 2/alpha: the model takes that float (q2a) as input; C17_ci_bootstraps holds for any q2a, C17_source_n_boot for the exact quotient; cases where the float quotient is an integer are counted float_ambiguous when the exact one is not',
+    'segments given WITHOUT a log2 column (residuals against each range\'s median) are outside the model (a segment row always carries log2)',
+    'function-body translator: np.sqrt / norm.cdf enter as expression-keyed opaque inputs, the bootstraps guard (logging call in its body), k ** (-1/4) and the list comprehension of _smooth_samples_by_weight are not translatable -- tied by genspec fingerprints and the correspondence only',
     'float rounding: theorems are about exact rational arithmetic; code and model are compared at 1e-9 (decisions closer than 1e-7 to a boundary are counted float_ambiguous)',
 ]
 
@@ -68,6 +69,26 @@ def close(code, exact, tol=TOL):
         return False
     e = float(exact)
     return abs(float(code) - e) <= tol * max(1.0, abs(e))
+
+
+def par_batch(entry, vals, workers=12, cost=None):
+    """vlib.model_batch sharded over `workers` driver processes, the shards balanced by an estimate of the work
+    (requests sorted by cost and dealt round-robin); results in request order"""
+    n = len(vals)
+    if n < 8:
+        return vlib.model_batch(entry, vals)
+    from concurrent.futures import ThreadPoolExecutor
+    k = min(workers, n)
+    cost = cost or (lambda v: len(repr(v)))
+    order = sorted(range(n), key=lambda i: -cost(vals[i]))
+    shards = [order[i::k] for i in range(k)]
+    with ThreadPoolExecutor(k) as ex:
+        res = list(ex.map(lambda ix: vlib.model_batch(entry, [vals[i] for i in ix]), shards))
+    out = [None] * n
+    for ix, r in zip(shards, res):
+        for i, v in zip(ix, r):
+            out[i] = v
+    return out
 
 
 def load_cnvlib():
@@ -223,10 +244,18 @@ def seg_sizes(rng, tier, want_ci):
 
 
 def gen_values(rng, k):
-    kind = rng.choice(['noise', 'noise', 'noise', 'ties', 'equal', 'two', 'outlier', 'symmetric', 'wide'])
+    kind = rng.choice(['noise', 'noise', 'noise', 'ties', 'equal', 'two', 'outlier', 'symmetric', 'wide', 'zero_mean', 'zeros'])
     base = grid(rng, -2 * GRID, 2 * GRID)
     if kind == 'equal':
         return [base] * k, kind
+    if kind == 'zeros':
+        return [0.0] * k, kind              # t = 0/0
+    if kind == 'zero_mean':
+        # mean exactly 0 with some spread: t = 0, p_ttest = 1
+        half = [rng.randint(1, 400) / GRID for _ in range(k // 2)]
+        v = [h for h in half] + [-h for h in half] + ([0.0] if k % 2 else [])
+        rng.shuffle(v)
+        return v, kind
     if kind == 'ties':
         pool = [base + rng.randint(-6, 6) / 64 for _ in range(rng.randint(2, 4))]
         return [rng.choice(pool) for _ in range(k)], kind
@@ -262,7 +291,7 @@ def gen_table(rng, tier, for_bintest=False):
         weights_kind = rng.choice(['rand', 'rand', 'equal', 'ones', 'tiny'])
         carry = None            # a segment start inherited from a cut through the previous bin
         for j in range(nseg):
-            kind = rng.choice(['normal'] * 7 + ['empty', 'single', 'single'])
+            kind = rng.choice(['normal'] * 6 + ['empty', 'single', 'single', 'pair'])
             if kind == 'empty':
                 pos += rng.randint(0, 300)
                 s0 = carry if carry is not None else pos
@@ -272,10 +301,12 @@ def gen_table(rng, tier, for_bintest=False):
                 carry = None
                 classes.add('empty_segment')
                 continue
-            k = 1 if kind == 'single' else min(seg_sizes(rng, tier, False), max(2, budget))
+            k = 1 if kind == 'single' else 2 if kind == 'pair' else min(seg_sizes(rng, tier, False), max(2, budget))
             budget = max(2, budget - k)
             if kind == 'single':
                 classes.add('single_bin_segment')
+            if k == 2:
+                classes.add('two_bin_segment')
             vals, vkind = gen_values(rng, k)
             classes.add('values_' + vkind)
             first_start = None
@@ -381,6 +412,12 @@ def gen_config(rng, idx):
     ivl = [n for i, n in enumerate(IVL) if ((idx * 3 + idx // 64) >> i) & 1]
     rng.shuffle(loc)
     rng.shuffle(spread)
+    if loc and rng.random() < 0.06:
+        loc.insert(rng.randrange(len(loc) + 1), rng.choice(loc))
+    if spread and rng.random() < 0.06:
+        spread.insert(rng.randrange(len(spread) + 1), rng.choice(spread))
+    if ivl and rng.random() < 0.3:
+        ivl = ivl[::-1] + ([rng.choice(ivl)] if rng.random() < 0.2 else [])
     alpha = gen_alpha(rng)
     two_a = 2 / alpha
     boots = rng.choice([100, 10, 25, 40, 64, int(two_a), int(two_a) + 1, int(math.ceil(two_a)), 150])
@@ -394,6 +431,15 @@ def tame_config(rng, cfg, nbins, tier):
     if 'ci' in cfg['ivl'] and nbins > 250:
         cfg['alpha'] = max(cfg['alpha'], 0.1)
         cfg['bootstraps'] = min(cfg['bootstraps'], 40)
+    # smoothed bootstrap: every element is a product of three floats (160-bit rationals): bounded work per case
+    if 'ci' in cfg['ivl'] and cfg['smoothed']:
+        work = nbins * n_boot_code(cfg['bootstraps'], cfg['alpha'])
+        if work > (2500 if tier == 'quick' else 8000):
+            if rng.random() < 0.6:
+                cfg['smoothed'] = False
+            else:
+                cfg['alpha'] = max(cfg['alpha'], rng.choice([0.2, 0.25, 0.5]))
+                cfg['bootstraps'] = min(cfg['bootstraps'], rng.choice([4, 8, 10, 12]))
     lim = 100 if tier == 'quick' else 150
     if 'bivar' in cfg['spread'] and nbins > lim and rng.random() < 0.9:
         cfg['spread'] = [x for x in cfg['spread'] if x != 'bivar']
@@ -427,7 +473,31 @@ def code_segmetrics(bins, segs, has_depth, cfg):
     for c in d.columns:
         if c not in SEG_COLS:
             res[c] = [float(x) for x in d[c].values]
+    if 'ci' in cfg['ivl']:
+        # reproducible run to run: the same request again in the same process, the global generator left in
+        # another state (C17_ci_seed_state / C17_ci_reproducible)
+        np.random.seed(424242)
+        np.random.rand(3)
+        try:
+            again = segmetrics.do_segmetrics(make_cna(bins, has_depth), make_segs(segs), interval_stats=['ci'],
+                                             alpha=cfg['alpha'], bootstraps=cfg['bootstraps'], smoothed=cfg['smoothed'],
+                                             skip_low=cfg['skip_low']).data
+            res['ci_again'] = [[float(x) for x in again['ci_lo'].values], [float(x) for x in again['ci_hi'].values]]
+        except Exception as e:          # noqa
+            res['ci_again'] = 'raised ' + type(e).__name__
     return res
+
+
+def same_floats(a, b):
+    return len(a) == len(b) and all((x == y) or (x != x and y != y) for x, y in zip(a, b))
+
+
+def first_occurrences(names):
+    out = []
+    for n in names:
+        if n not in out:
+            out.append(n)
+    return out
 
 
 def brute_bins(bins, has_depth, seg, skip_low, consts, mode='outer'):
@@ -454,22 +524,33 @@ def n_boot_code(bootstraps, alpha):
     return bootstraps
 
 
+def bw_code(k):
+    """the bandwidth exactly as _smooth_samples_by_weight computes it"""
+    return float(k ** (-1 / 4))
+
+
 def draw_oracles(vals, wts, cfg, consts):
-    """the index matrix (and noise rows) confidence_interval_bootstrap draws for one segment,
-    reproduced by seeding numpy exactly as the code does"""
+    """what confidence_interval_bootstrap draws for one segment, reproduced by seeding numpy with the generated
+    seed constant: the index matrix randint(0, k, size=(bootstraps, k)) and -- smoothed -- one randn(k) per row"""
     k = len(vals)
     if 'ci' not in cfg['ivl'] or k < consts['min_k']:
         return [], []
     nb = n_boot_code(cfg['bootstraps'], cfg['alpha'])
     np.random.seed(consts['seed'])
     idx = np.random.randint(0, k, size=(nb, k))
-    noise = []
+    zs = []
     if cfg['smoothed']:
-        w = np.asarray(wts, float)
-        bw = k ** (-1 / 4)
-        for row in idx:
-            noise.append([float(x) for x in (bw * np.sqrt(1 - np.take(w, row)) * np.random.randn(k))])
-    return [[int(i) for i in row] for row in idx], noise
+        for _row in idx:
+            zs.append([float(x) for x in np.random.randn(k)])
+    return [[int(i) for i in row] for row in idx], zs
+
+
+def sqrt_table(wts):
+    """np.sqrt on the points 1 - w (keys exact, values the floats numpy returns)"""
+    out = {}
+    for w in wts:
+        out[F(1) - fr(w)] = float(np.sqrt(1 - np.float64(w)))
+    return [[k, v] for k, v in sorted(out.items())]
 
 
 def kde_index(vals):
@@ -486,15 +567,20 @@ def kde_index(vals):
     return int(y.argmax())
 
 
-def exact_ci(vals, wts, idx, noise, cfg):
-    """percentiles of the bootstrap distribution of weighted means, exactly"""
+def exact_ci(vals, wts, idx, zs, cfg):
+    """percentiles of the bootstrap distribution of weighted means, exactly; smoothed: every resampled value
+    v_i gets bw * sqrt(1 - w_i) * z added, bw = k^(-1/4), z the standard-normal draw of its position"""
     v = [fr(x) for x in vals]
     w = [fr(x) for x in wts]
+    k = len(v)
     dist = []
+    if zs:
+        bw = fr(bw_code(k))
+        sd = [fr(float(np.sqrt(1 - np.float64(x)))) for x in wts]
     for r, row in enumerate(idx):
-        if noise:
-            nz = noise[r]
-            num = sum((v[i] + fr(nz[c])) * w[i] for c, i in enumerate(row))
+        if zs:
+            z = zs[r]
+            num = sum((v[i] + bw * sd[i] * fr(z[c])) * w[i] for c, i in enumerate(row))
         else:
             num = sum(v[i] * w[i] for i in row)
         dist.append(num / sum(w[i] for i in row))
@@ -533,9 +619,10 @@ def prepare_segmetrics(bins, segs, has_depth, cfg, consts):
             # the library's own biweight location of the deviations (oracle of the bivar column)
             dev = np.asarray(vals, float) - float(seg[4])
             bl = float(descriptives.biweight_location(dev))
-        per.append([kd, bl, idx, noise])
+        per.append([kd, bl, idx, noise, bw_code(max(1, len(vals)))])
         draws.append((idx, noise))
-    req = [enc_bins(bins, has_depth), enc_segs(segs), enc_cfg(cfg), [float(2 / cfg['alpha']), per]]
+    sq = sqrt_table([b[5] for b in bins]) if ('ci' in cfg['ivl'] and cfg['smoothed']) else []
+    req = [enc_bins(bins, has_depth), enc_segs(segs), enc_cfg(cfg), [float(2 / cfg['alpha']), sq, per]]
     return sel, draws, req
 
 
@@ -561,11 +648,29 @@ def check_segmetrics_case(ck, case, code, sel, draws, model, consts, label):
         ck.violation('segment table columns changed by do_segmetrics', case, code=code['segcols'], expected=segs,
                      clause='C17_columns_kept')
         return
-    want_cols = list(cfg['loc']) + list(cfg['spread']) + (['ci_lo', 'ci_hi'] if 'ci' in cfg['ivl'] else []) + \
-        (['pi_lo', 'pi_hi'] if 'pi' in cfg['ivl'] else [])
-    if sorted(c for c in code['cols'] if c not in SEG_COLS) != sorted(set(want_cols)):
-        ck.violation('unexpected statistic columns', case, code=code['cols'], expected=want_cols, clause='C17_columns_kept')
+    # --- C17_table_columns: the segment table's columns, then the requested location statistics in the requested
+    # order, the requested spread statistics in the requested order, ci_lo, ci_hi, pi_lo, pi_hi -- nothing else
+    want_cols = first_occurrences(list(cfg['loc']) + list(cfg['spread']) + (['ci_lo', 'ci_hi'] if 'ci' in cfg['ivl'] else []) +
+                                  (['pi_lo', 'pi_hi'] if 'pi' in cfg['ivl'] else []))
+    if code['cols'] != SEG_COLS + want_cols:
+        ck.violation('output columns are not the segment columns followed by the requested statistics in the requested order',
+                     case, code=code['cols'], expected=SEG_COLS + want_cols, clause='C17_table_columns')
         return
+    for si, m in enumerate(model):
+        if [nm for nm, _ in m[2]] != want_cols:
+            ck.tie_break('model column names / order differ from the code', dict(case, segment=si), code=code['cols'],
+                         model=[nm for nm, _ in m[2]])
+            return
+    if len(set(cfg['loc'])) < len(cfg['loc']) or len(set(cfg['spread'])) < len(cfg['spread']):
+        ck.cls('repeated_statistic_name')
+    if 'ci_again' in code:
+        ck.cls('ci_second_call')
+        ag = code['ci_again']
+        if isinstance(ag, str) or not (same_floats(ag[0], code['ci_lo']) and same_floats(ag[1], code['ci_hi'])):
+            ck.violation('the bootstrap CI is not reproducible run to run: a second call in the same process (global generator '
+                         'in another state) returns a different interval', case, code=ag, expected=[code['ci_lo'], code['ci_hi']],
+                         clause='C17_ci_seed')
+            return
     alpha = fr(cfg['alpha'])
     for si, seg in enumerate(segs):
         ids = sel[si]
@@ -704,7 +809,7 @@ def run_segmetrics(ck, consts, cases, label):
         sel, draws, req = prepare_segmetrics(case['bins'], case['segs'], case['has_depth'], case['cfg'], consts)
         reqs.append(req)
         metas.append((case, code, sel, draws))
-    models = vlib.model_batch_parallel('c17_segmetrics', reqs)
+    models = par_batch('c17_segmetrics', reqs)
     for (case, code, sel, draws), model in zip(metas, models):
         if isinstance(model, Err):
             raise RuntimeError('C17 model rejected a case: %r %r' % (model, case))
@@ -716,7 +821,7 @@ def run_segmetrics(ck, consts, cases, label):
 def check_segmetrics(ck, consts):
     rng = ck.rng
     n = 200 if ck.tier == 'quick' else 3200
-    chunk = 100 if ck.tier == 'quick' else 250
+    chunk = 200 if ck.tier == 'quick' else 250
     start = rng.randrange(1 << 10)
     done = 0
     while done < n:
@@ -728,6 +833,158 @@ def check_segmetrics(ck, consts):
             cases.append({'bins': bins, 'segs': segs, 'has_depth': has_depth, 'cfg': cfg, 'classes': sorted(classes)})
         run_segmetrics(ck, consts, cases, 'segmetrics')
         done += len(cases)
+
+
+
+# ----------------------------------------------------------------------------
+# confidence_interval_bootstrap, called directly, with numpy's generator observed
+
+class RngLog:
+    """records the calls confidence_interval_bootstrap makes to numpy's global generator (seed / randint / randn) and
+    what they returned; the calls are passed on unchanged (harness process only)"""
+
+    def __enter__(self):
+        self.calls = []
+        self.saved = (np.random.seed, np.random.randint, np.random.randn)
+        seed0, randint0, randn0 = self.saved
+
+        def seed(*a, **k):
+            self.calls.append(('seed',) + tuple(a))
+            return seed0(*a, **k)
+
+        def randint(*a, **k):
+            r = randint0(*a, **k)
+            self.calls.append(('randint', tuple(a), dict(k), r))
+            return r
+
+        def randn(*a, **k):
+            r = randn0(*a, **k)
+            self.calls.append(('randn', tuple(a), r))
+            return r
+        np.random.seed, np.random.randint, np.random.randn = seed, randint, randn
+        return self
+
+    def __exit__(self, *exc):
+        np.random.seed, np.random.randint, np.random.randn = self.saved
+        return False
+
+
+def gen_ci_direct(rng, tier):
+    k = rng.choice([1, 1, 2, 2, 2, 3, 3, 4, 5, 8, 16, 30]) if rng.random() < 0.9 else rng.randint(31, 80)
+    vals, vkind = gen_values(rng, k)
+    wk = rng.choice(['rand', 'rand', 'ones', 'equal', 'tiny', 'some_ones'])
+    wts = [1.0 if wk == 'ones' else 0.5 if wk == 'equal' else rng.randint(1, 8) / 1024 if wk == 'tiny'
+           else (1.0 if (wk == 'some_ones' and rng.random() < 0.4) else rng.randint(1, 64) / 64) for _ in range(k)]
+    r = rng.random()
+    if r < 0.45:
+        n = rng.choice([3, 4, 5, 8, 10, 16, 20, 25, 40, 50])
+        alpha = 2 / n                      # 2/alpha is (about) the integer n: the guard `bootstraps <= 2/alpha` at equality
+        boots = rng.choice([n - 1, n, n, n + 1, 1, 2 * n])
+    elif r < 0.8:
+        alpha = gen_alpha(rng)
+        q = 2 / alpha
+        boots = rng.choice([int(q) - 1, int(q), int(q) + 1, int(math.ceil(q)), int(math.ceil(q)) + 1, 1, 100])
+    else:
+        alpha = rng.choice([0.05, 0.5, 0.999, 0.75, 1 / 3])
+        boots = rng.choice([100, 7, 60])
+    boots = max(1, boots)
+    smoothed = rng.random() < 0.5
+    if k * max(boots, 2 / alpha) > 3000:
+        alpha, boots = max(alpha, 0.2), min(boots, 12)
+    return {'values': vals, 'weights': wts, 'alpha': alpha, 'bootstraps': boots, 'smoothed': smoothed, 'wkind': wk}
+
+
+def check_ci_direct(ck, consts):
+    rng = ck.rng
+    n = 160 if ck.tier == 'quick' else 2500
+    cases = [gen_ci_direct(rng, ck.tier) for _ in range(n)]
+    # fixed shapes the proofs case-split on
+    cases += [{'values': [0.25], 'weights': [0.5], 'alpha': 0.05, 'bootstraps': 100, 'smoothed': sm, 'wkind': 'fixed'} for sm in (False, True)]
+    cases += [{'values': [1.0, 1.0], 'weights': [1.0, 1.0], 'alpha': 0.05, 'bootstraps': 100, 'smoothed': True, 'wkind': 'ones'},
+              {'values': [0.0, 1.0, -0.5], 'weights': [0.5, 0.25, 1.0], 'alpha': 0.5, 'bootstraps': 4, 'smoothed': False, 'wkind': 'fixed'},
+              {'values': [0.0, 1.0, -0.5], 'weights': [0.5, 0.25, 1.0], 'alpha': 0.5, 'bootstraps': 5, 'smoothed': True, 'wkind': 'fixed'}]
+    recs, reqs = [], []
+    for c in cases:
+        vals, wts, k = c['values'], c['weights'], len(c['values'])
+        np.random.seed(rng.randrange(1 << 30))
+        with RngLog() as log:
+            try:
+                out = segmetrics.confidence_interval_bootstrap(np.asarray(vals, float), np.asarray(wts, float), c['alpha'],
+                                                               c['bootstraps'], c['smoothed'])
+                out = [float(out[0]), float(out[1])]
+            except Exception as e:      # noqa
+                out = Err(type(e).__name__ + ': ' + str(e)[:200])
+        idx = [[int(i) for i in row] for call in log.calls if call[0] == 'randint' for row in call[3]]
+        zs = [[float(x) for x in call[2]] for call in log.calls if call[0] == 'randn']
+        recs.append((c, out, log.calls, idx, zs))
+        per = [None, None, idx, zs if c['smoothed'] else [], bw_code(max(1, k))]
+        reqs.append([[float(x) for x in vals], [float(x) for x in wts], float(c['alpha']), int(c['bootstraps']), bool(c['smoothed']),
+                     [float(2 / c['alpha']), sqrt_table(wts) if c['smoothed'] else [], [per]]])
+    models = par_batch('c17_ci', reqs)
+    for (c, out, calls, idx, zs), model in zip(recs, models):
+        case = {'ci_direct': True, 'values': c['values'], 'weights': c['weights'], 'alpha': c['alpha'],
+                'bootstraps': c['bootstraps'], 'smoothed': c['smoothed']}
+        k = len(c['values'])
+        ck.count(case, nontrivial=k >= 2, cls='ci_direct')
+        ck.cls('ci_direct_k%s' % (k if k <= 3 else '4+'))
+        if isinstance(out, Err):
+            ck.violation('confidence_interval_bootstrap raised: %s' % out.msg, case, code=out.msg, clause='C17_ci_cases')
+            continue
+        if k < 2:
+            # C17_ci_cases: the value twice, nothing drawn, the generator not touched
+            if calls or out != [float(c['values'][0])] * 2:
+                ck.violation('a single bin must give its value twice without drawing anything', case, code=out,
+                             calls=[x[0] for x in calls], clause='C17_ci_cases')
+            elif isinstance(model, Err) or model[1] is None or [float(x) for x in model[1]] != out:
+                ck.tie_break('model ci (k < 2) differs from the code', case, code=out, model=model)
+            continue
+        # C17_ci_bootstraps: the least integer that is >= bootstraps and >= 2/alpha
+        q = F(2) / fr(c['alpha'])
+        nb_exact = max(c['bootstraps'], math.ceil(q))
+        near = abs(float(q) - round(float(q))) < 1e-9
+        shape = [(x[0], x[1]) for x in calls[:2]]
+        nb = len(idx)
+        ok_calls = (len(calls) >= 2 and calls[0] == ('seed', consts['seed']) and calls[1][0] == 'randint'
+                    and tuple(calls[1][1]) == (0, k) and tuple(calls[1][2].get('size', ())) == (nb, k)
+                    and all(x[0] == 'randn' and tuple(x[1]) == (k,) for x in calls[2:])
+                    and len(calls) - 2 == (nb if c['smoothed'] else 0)
+                    and all(0 <= i < k for row in idx for i in row))
+        if not ok_calls:
+            ck.violation('the resampling is not: seed(0xA5EED); randint(0, k, size=(bootstraps, k)); one randn(k) per resample when '
+                         'smoothed', case, calls=[(x[0], x[1]) for x in calls[:4]], n_calls=len(calls), clause='C17_ci_seed')
+            continue
+        if nb != nb_exact:
+            if near:
+                ck.float_ambiguous += 1
+            else:
+                ck.violation('the number of resamples is not max(bootstraps, ceil(2/alpha))', case, code=nb, expected=nb_exact,
+                             clause='C17_ci_bootstraps')
+                continue
+        if near:
+            ck.cls('ci_direct_2_over_alpha_integer')
+        cfg = {'alpha': c['alpha']}
+        elo, ehi, dist = exact_ci(c['values'], c['weights'], idx, zs, cfg)
+        if not (close(out[0], elo) and close(out[1], ehi) and out[0] <= out[1]):
+            ck.violation('ci is not the 100 alpha/2 and 100 (1 - alpha/2) percentiles of the weighted means of the resamples'
+                         + (' smoothed by bw * sqrt(1 - w) * z, bw = k^(-1/4)' if c['smoothed'] else ''), case, code=out,
+                         expected=[float(elo), float(ehi)], clause='C17_ci_smoothed_formula' if c['smoothed'] else 'C17_ci_resample_means')
+            continue
+        fv = [float(x) for x in c['values']]
+        if not c['smoothed'] or all(w == 1.0 for w in c['weights']):
+            # in range: un-smoothed always (C17_ci_order_range); smoothed with all weights 1 (C17_ci_smoothed_weight_one)
+            eps = 1e-12 * max(1.0, abs(min(fv)), abs(max(fv)))
+            if not (min(fv) - eps <= out[0] and out[1] <= max(fv) + eps):
+                ck.violation('bootstrap CI outside the range of the bins', case, code=out, range=[min(fv), max(fv)],
+                             clause='C17_ci_order_range')
+                continue
+            if c['smoothed']:
+                ck.cls('ci_direct_smoothed_all_weights_one')
+        if isinstance(model, Err):
+            raise RuntimeError('C17 ci model rejected %r: %r' % (case, model))
+        if int(model[0]) != nb and not near:
+            ck.tie_break('model number of resamples differs from the code', case, code=nb, model=int(model[0]))
+        elif model[1] is None or not (close(out[0], model[1][0]) and close(out[1], model[1][1])):
+            ck.tie_break('model ci differs from the code', case, code=out, model=model[1])
 
 
 # ----------------------------------------------------------------------------
@@ -835,7 +1092,9 @@ def code_bintest(bins, segs, has_depth, alpha, target_only):
     except Exception as e:      # noqa
         return Err(type(e).__name__ + ': ' + str(e)[:200])
     d = hits.data
-    return {'idx': [int(i) for i in d.index], 'log2': [float(x) for x in d['log2'].values],
+    return {'cols': list(d.columns), 'probes': [x for x in d['probes'].values] if 'probes' in d else None,
+            'depth': [float(x) for x in d['depth'].values] if 'depth' in d else None,
+            'idx': [int(i) for i in d.index], 'log2': [float(x) for x in d['log2'].values],
             'p': [float(x) for x in d['p_bintest'].values],
             'rows': [[d[c].iloc[i] for c in ('chromosome', 'start', 'end', 'gene', 'weight')] for i in range(len(d))],
             'input_unchanged': bool(before.equals(cn.data))}
@@ -858,6 +1117,14 @@ def brute_residuals(bins, segs):
         if inside:
             out.append((i, fr(b[4]) - fr(inside[0][4])))
     return out
+
+
+def residual_order_is_table_order(bins, segs):
+    """do the residual rows (segment by segment, bins in table order inside each) come with increasing index labels?"""
+    if not segs:
+        return True
+    seq = [i for s in segs for i, b in enumerate(bins) if s[0] == b[0] and s[1] <= b[1] and b[2] <= s[2]]
+    return all(a < b for a, b in zip(seq, seq[1:]))
 
 
 def p_normal_two_sided(r, w):
@@ -888,11 +1155,21 @@ def check_bintest_cases(ck, consts, cases, label):
                 raw.append(float(2.0 * norm.cdf(-math.sqrt(float(z2)))))      # the Phi oracle
         c['_raw'] = raw
         reqs2.append([enc_bins(c['bins'], c['has_depth']), (None if c['segs'] is None else enc_segs(c['segs'])),
-                      float(c['alpha']), bool(c['target_only']), raw])
-    models = vlib.model_batch_parallel('c17_bintest', reqs2)
-    for c, z, model in zip(cases, zs, models):
+                      float(c['alpha']), bool(c['target_only']), raw, bool(c['has_depth'])])
+    tables = par_batch('c17_bintest_table', reqs2)
+    for t, c in zip(tables, cases):
+        if isinstance(t, Err):
+            raise RuntimeError('C17 bintest table model error %r on %r' % (t, c))
+    # the (index, log2, p) view of the table is do_bintest of the model (C17_bintest_table)
+    models = [[[r[0], r[5], r[9]] for r in t[1]] for t in tables]
+    mcols = [list(t[0]) for t in tables]
+    mrows = [t[1] for t in tables]
+    for c, z, model, mcol, mrow in zip(cases, zs, models, mcols, mrows):
         raw = c.pop('_raw')
         case = {k: v for k, v in c.items() if not k.startswith('_')}
+        for cl in c.get('classes', []):
+            if cl.startswith('weight_one') or cl.startswith('tied_'):
+                ck.cls('bintest_' + cl)
         code = code_bintest(c['bins'], c['segs'], c['has_depth'], c['alpha'], c['target_only'])
         bins = c['bins']
         res = brute_residuals(bins, c['segs'])
@@ -904,7 +1181,15 @@ def check_bintest_cases(ck, consts, cases, label):
             if c['target_only']:
                 res = [(i, r) for i, r in res if bins[i][3] not in consts['anti']]
             ps = [p_normal_two_sided(float(r), bins[i][5]) for i, r in res]
-            for (i, r), p, (mi, mr, mz), rp in zip(res, ps, z, raw):
+            # the model's rows come in ITS order (table order, or the order of the residuals when the segments are
+            # listed otherwise): same rows, matched position by position only when that order is table order
+            zrows = list(zip(z, raw))
+            if not residual_order_is_table_order(bins, c['segs']):
+                if sorted(int(m[0][0]) for m in zrows) != [i for i, _ in res]:
+                    raise RuntimeError('C17: model residual rows are not the brute-force residual rows: %r vs %r in %r'
+                                       % ([int(m[0][0]) for m in zrows], [i for i, _ in res], case))
+                zrows.sort(key=lambda m: int(m[0][0]))
+            for (i, r), p, ((mi, mr, mz), rp) in zip(res, ps, zrows):
                 if int(mi) != i or F(mr) != r:
                     raise RuntimeError('C17: model residual rows differ from the brute-force residuals (contradicts the residuals '
                                        'theorem): %r vs %r in %r' % ((mi, mr), (i, r), case))
@@ -935,6 +1220,31 @@ def check_bintest_cases(ck, consts, cases, label):
         if not code['input_unchanged']:
             ck.violation('do_bintest modified the caller\'s bin table', case, clause='C17_hits')
             continue
+        # --- C17_bintest_table: the input's columns (log2 in place), probes, p_bintest; every row is the input bin of
+        # that index label with nothing but log2 changed, probes = 1
+        want_cols = BIN_COLS + (['depth'] if c['has_depth'] else []) + ['probes', 'p_bintest']
+        rows_ok = code['cols'] == want_cols and all(int(x) == 1 for x in code['probes']) and \
+            all(0 <= i < len(bins) for i in code['idx']) and \
+            all(list(row[:4]) == list(bins[i][:4]) and float(row[4]) == float(bins[i][5]) for row, i in zip(code['rows'], code['idx'])) and \
+            (not c['has_depth'] or all(float(d) == float(bins[i][6]) for d, i in zip(code['depth'], code['idx'])))
+        if not rows_ok:
+            ck.violation('the table do_bintest returns is not the input bins (log2 replaced by the residual) plus probes = 1 and '
+                         'p_bintest', case, code={'cols': code['cols'], 'idx': code['idx'], 'probes': code['probes']},
+                         expected=want_cols, clause='C17_bintest_table')
+            continue
+        if mcol != code['cols']:
+            ck.tie_break('model column names of the bintest table differ from the code', case, code=code['cols'], model=mcol)
+            continue
+        if exp_hits is not None and not residual_order_is_table_order(bins, c['segs']):
+            # segments listed in another order than the bins: exactly the same bins must come back; their order is the
+            # model's (proved: table order if every bin is covered once, else the order of the residuals)
+            ck.cls('bintest_segments_out_of_table_order')
+            pos = {i: n for n, i in enumerate(code['idx'])}
+            if sorted(code['idx']) != [i for i, _, _ in exp_hits] or len(pos) != len(code['idx']):
+                ck.violation('do_bintest does not return exactly the bins whose adjusted p is below alpha', case,
+                             code=code['idx'], expected=[i for i, _, _ in exp_hits], clause='C17_hits')
+                continue
+            exp_hits = sorted(exp_hits, key=lambda h: pos[h[0]])
         if exp_hits is not None:
             ok = code['idx'] == [i for i, _, _ in exp_hits] and \
                 all(close(cl, r, 1e-12) for cl, (_, r, _) in zip(code['log2'], exp_hits)) and \
@@ -952,6 +1262,10 @@ def check_bintest_cases(ck, consts, cases, label):
         okm = code['idx'] == [int(h[0]) for h in model] and \
             all(close(cl, h[1], 1e-12) for cl, h in zip(code['log2'], model)) and \
             all(abs(cp - float(h[2])) <= 1e-7 * float(h[2]) + 1e-300 for cp, h in zip(code['p'], model))
+        if okm:
+            # the rest of every model row is the code's row
+            okm = all(list(mr[1:5]) == list(row[:4]) and float(mr[6]) == float(row[4]) and int(mr[8]) == 1 and
+                      (mr[7] is None) == (not c['has_depth']) for mr, row in zip(mrow, code['rows']))
         if not okm:
             ck.tie_break('model do_bintest differs from the code', case,
                          code={'idx': code['idx'], 'log2': code['log2'], 'p': code['p']},
@@ -1000,6 +1314,29 @@ def gen_bintest_case(rng, tier):
     for b in bins:
         if b[5] == 1.0:
             b[5] = 1.0 if rng.random() < 0.3 else 63 / 64
+    # weight exactly 1 (sd = sqrt(0) = 0): z = r/0 -- infinite (p = 0: always a hit) or, residual exactly 0, undefined
+    if bins and segs and rng.random() < 0.25:
+        for _ in range(rng.randint(1, 2)):
+            s = rng.choice(segs)
+            inside = [b for b in bins if b[0] == s[0] and s[1] <= b[1] and b[2] <= s[2]]
+            if inside:
+                b = rng.choice(inside)
+                b[5] = 1.0
+                b[4] = s[4] if rng.random() < 0.3 else s[4] + rng.choice([-1, 1]) * rng.randint(1, 512) / GRID
+                classes.add('weight_one_zero_residual' if b[4] == s[4] else 'weight_one_nonzero_residual')
+    # tied raw p-values strictly inside (0, 1): bins of one segment sharing the weight with residuals +d / -d / +d
+    if bins and segs and rng.random() < 0.45:
+        for _ in range(rng.randint(1, 3)):
+            s = rng.choice(segs)
+            inside = [b for b in bins if b[0] == s[0] and s[1] <= b[1] and b[2] <= s[2] and b[5] != 1.0]
+            if len(inside) >= 2:
+                grp = rng.sample(inside, min(len(inside), rng.randint(2, 4)))
+                d = rng.randint(1, 3 * GRID) / GRID
+                w = rng.choice([0.5, 0.75, 63 / 64, 0.25, grp[0][5]])
+                for b in grp:
+                    b[4] = s[4] + rng.choice([-1, 1]) * d
+                    b[5] = w
+                classes.add('tied_p_values')
     mode = rng.choice(['segments'] * 6 + ['none', 'none', 'empty'])
     if mode == 'none':
         use = None
@@ -1010,6 +1347,15 @@ def gen_bintest_case(rng, tier):
         if rng.random() < 0.04 and segs:
             s = list(rng.choice(segs))
             use = segs + [s] if s[0] == segs[-1][0] else segs       # a repeated (overlapping) segment, grouped
+    if use and rng.random() < 0.12:
+        # the segment table lists the chromosomes in another order than the bin table (still grouped)
+        chroms = []
+        for sg in use:
+            if sg[0] not in chroms:
+                chroms.append(sg[0])
+        if len(chroms) > 1:
+            rng.shuffle(chroms)
+            use = [sg for ch in chroms for sg in use if sg[0] == ch]
     alpha = rng.choice([0.005, 0.005, 0.05, 0.5, 1e-6, 0.999, 0.2, rng.random()])
     return {'bins': bins, 'segs': use, 'has_depth': has_depth, 'alpha': alpha, 'target_only': rng.random() < 0.5,
             'classes': sorted(classes)}
@@ -1102,6 +1448,7 @@ def run(ck, scratch):
     import time
     parts = {}
     for name, fn in (('corpus', lambda: check_corpus(ck, consts)), ('p_adjust_bh', lambda: check_bh(ck)),
+                     ('ci_direct', lambda: check_ci_direct(ck, consts)),
                      ('do_bintest', lambda: check_bintest(ck, consts)), ('do_segmetrics', lambda: check_segmetrics(ck, consts))):
         t0 = time.time()
         fn()
@@ -1118,6 +1465,13 @@ def replay(ck, body):
     before = len(ck.violations)
     if 'p' in case:
         check_bh_vectors(ck, [case['p']], 'replay')
+    elif case.get('ci_direct'):
+        print('a direct confidence_interval_bootstrap case: values=%r weights=%r alpha=%r bootstraps=%r smoothed=%r'
+              % tuple(case.get(k) for k in ('values', 'weights', 'alpha', 'bootstraps', 'smoothed')))
+        out = segmetrics.confidence_interval_bootstrap(np.asarray(case['values'], float), np.asarray(case['weights'], float),
+                                                       case['alpha'], case['bootstraps'], case['smoothed'])
+        print('code returns', [float(x) for x in out], '; recorded:', body.get('code'), 'expected:', body.get('expected'))
+        return 1
     elif 'cfg' in case:
         c = {k: v for k, v in case.items() if k in ('bins', 'segs', 'has_depth', 'cfg')}
         run_segmetrics(ck, consts, [c], 'replay')
